@@ -110,4 +110,7 @@ package wallet
 //@   tags C19
 //@   calls (storage.WalletDB).IncrementKeysetCounter asserts @scanpos [C19] (wdb.counter[keysetId] + num) % 4294967296 == counter
 //@   calls (storage.WalletDB).SaveKeyset asserts @fromzero [C19] ks.Counter == 0
+// ... and it is saved only at the end of a batch the mint had signatures for: the stored
+// counter never runs into the trailing empty batches (which are the restore gap limit)
+//@   calls (storage.WalletDB).IncrementKeysetCounter asserts @nonempty [C19] len(restoreResponse.Signatures) > 0
 //@   loop 3 invariant savedCounter == wdb.counter[keyset.Id] % 4294967296
